@@ -19,7 +19,7 @@ from .decl import Decl, Sanitizer, Validator, Bound, Custom, INT_TYPES, FLOAT_TY
 from .refgen import ref_module, concrete_inner, concrete_self
 from .annotate import Undecided
 
-KANI_FLAGS = ['-Z', 'function-contracts', '-Z', 'stubbing']
+KANI_FLAGS = ['-Z', 'function-contracts', '-Z', 'stubbing', '-Z', 'unstable-options', '--harness-timeout', os.environ.get('VERIF_KANI_HARNESS_TIMEOUT', '600')]
 REJECTED_INFO = {}
 
 
@@ -264,6 +264,226 @@ def h_float_ord(d: Decl, props):
                    clause='forall obtainable a,b,c: finite; a==a; cmp total, antisymmetric, transitive, == partial_cmp of inner, never panics')
 
 
+PARSE_ERR_SRC = {
+    # a real error value of the inner type's FromStr::Err, produced by a DIFFERENT type's parser
+    'int': ['"".parse::<{o}>().unwrap_err()', '"x".parse::<{o}>().unwrap_err()', '"99999999999999999999999999999999999999999999".parse::<{o}>().unwrap_err()'],
+    'float': ['"".parse::<{o}>().unwrap_err()', '"x".parse::<{o}>().unwrap_err()'],
+}
+
+
+def parse_stub_items(types):
+    """stubs for <T as FromStr>::from_str: the outcome (Ok(v) | Err(e)) is fixed per execution and
+    independent of the text, i.e. *any* deterministic parser; the slice it is called with is recorded."""
+    out = ['pub static mut P_CALLS: usize = 0;\npub static mut P_PTR: usize = 0;\npub static mut P_LEN: usize = 0;\npub static mut P_OK: bool = true;\npub static mut P_ERR_SEL: u8 = 0;\n']
+    for t in types:
+        fl = t in FLOAT_TYPES
+        other = ('f32' if t == 'f64' else 'f64') if fl else ('u8' if t != 'u8' else 'i64')
+        errty = 'core::num::ParseFloatError' if fl else 'core::num::ParseIntError'
+        srcs = [s.format(o=other) for s in PARSE_ERR_SRC['float' if fl else 'int']]
+        sel = ' else '.join('if P_ERR_SEL == %d { %s }' % (i, s) for i, s in enumerate(srcs[:-1])) + (' else { %s }' % srcs[-1])
+        out.append('pub static mut P_VAL_%s: %s = 0 as %s;\n' % (t.upper(), t, t))
+        out.append('pub fn parse_err_%s() -> %s { unsafe { %s } }\n' % (t, errty, sel))
+        out.append('pub fn stub_parse_%s(s: &str) -> Result<%s, %s> { unsafe { P_CALLS += 1; P_PTR = s.as_ptr() as usize; P_LEN = s.len(); if P_OK { Ok(P_VAL_%s) } else { Err(parse_err_%s()) } } }\n'
+                   % (t, t, errty, t.upper(), t))
+    return ''.join(out)
+
+
+C06_INPUT = '" \\u{a0}7x \\n"'
+
+
+def h_from_str(d: Decl, props):
+    S = concrete_self(d)
+    R = 'ref_' + d.id
+    I = concrete_inner(d)
+    PE = d.name + 'ParseError'
+    if I == 'Point':
+        pre = ('        unsafe { PT_PARSE_OK = kani::any(); PT_PARSE_VAL = Point { x: kani::any(), y: kani::any() }; PT_PARSE_ERR = if kani::any() { MyErr::Bad } else { MyErr::Worse }; PT_CALLS = 0; }\n')
+        ok, val, err, calls, ptr, ln = 'PT_PARSE_OK', 'PT_PARSE_VAL', 'PT_PARSE_ERR', 'PT_CALLS', 'PT_PTR', 'PT_LEN'
+        attrs = ''
+    else:
+        t = d.inner
+        pre = '        unsafe { P_OK = kani::any(); P_VAL_%s = kani::any(); P_ERR_SEL = kani::any(); P_CALLS = 0; }\n' % t.upper()
+        ok, val, err, calls, ptr, ln = 'P_OK', 'P_VAL_%s' % t.upper(), 'parse_err_%s()' % t, 'P_CALLS', 'P_PTR', 'P_LEN'
+        attrs = '#[kani::stub(<%s as ::core::str::FromStr>::from_str, stub_parse_%s)]\n    ' % (t, t)
+    body = (sym_setup(d) + pre +
+            '        let s: &str = %s;\n' % C06_INPUT +
+            '        let r = <%s as ::core::str::FromStr>::from_str(s);\n' % S +
+            '        unsafe {\n'
+            '            assert!(%s == 1, "the inner type\'s FromStr is invoked exactly once");\n' % calls +
+            '            assert!(%s == s.as_ptr() as usize && %s == s.len(), "the inner parser receives exactly the given string (not a trimmed / altered one)");\n' % (ptr, ln) +
+            '            if !%s {\n' % ok +
+            '                match r { Err(%s::Parse(e)) => assert!(e == %s, "Parse carries the inner parser\'s error unchanged"), _ => assert!(false, "inner parse failure must yield the Parse error") }\n' % (PE, err) +
+            '            } else {\n')
+    if d.has_validation:
+        body += ('                let expect = %s::try_new(%s);\n' % (R, val) +
+                 '                match (r, expect) {\n'
+                 '                    (Ok(v), Ok(e)) => assert!(%s == %s, "from_str yields what the constructor yields for the parsed value"),\n' % (bits(d, 'v.into_inner()'), bits(d, 'e')) +
+                 '                    (Err(%s::Validate(e1)), Err(e2)) => assert!(e1 == e2, "Validate carries the constructor\'s error"),\n' % PE +
+                 '                    _ => assert!(false, "from_str must agree with the constructor on the parsed value"),\n'
+                 '                }\n')
+    else:
+        body += ('                match r { Ok(v) => assert!(%s == %s, "from_str yields new(parsed)"), _ => assert!(false, "from_str of a parsable string must be Ok") }\n'
+                 % (bits(d, 'v.into_inner()'), bits(d, '%s::sanitize(%s)' % (R, val))))
+    body += '            }\n        }\n'
+    return Harness(d, 'FromStr::from_str', props, body, attrs=attrs,
+                   clause='from_str(s) == match inner_parse(s) { Err(e) => Err(Parse(e)), Ok(v) => try_new(v).map_err(Validate) }; inner parser called once with exactly s; no panic')
+
+
+def fromstr_decls(tier='quick'):
+    out = []
+    types = (INT_TYPES + FLOAT_TYPES) if tier == 'thorough' else ['i32', 'u8', 'i128', 'usize', 'f32', 'f64']
+    for t in types:
+        fl = t in FLOAT_TYPES
+        fam = 'float' if fl else 'int'
+        bl, n1 = aux.sym_bound('lo', t)
+        bu, n2 = aux.sym_bound('hi', t)
+        s, n5 = aux.custom('san', t)
+        vals = [Validator('greater_or_equal', bl), Validator('less', bu)]
+        if fl:
+            vals = [Validator('finite')] + vals
+        out.append(mk('fs_%s_nov' % t, fam, t, derives=['Debug', 'FromStr']))
+        out.append(mk('fs_%s_val' % t, fam, t, validators=vals, aux=[n1, n2], derives=['Debug', 'FromStr']))
+        out.append(mk('fs_%s_san_val' % t, fam, t, sanitizers=[Sanitizer('with', s)], validators=vals, aux=[n1, n2, n5], derives=['Debug', 'FromStr']))
+        out.append(mk('fs_%s_san_nov' % t, fam, t, sanitizers=[Sanitizer('with', s)], aux=[n5], derives=['Debug', 'FromStr']))
+        v, n4 = aux.custom('vfn', t)
+        out.append(mk('fs_%s_custom' % t, fam, t, custom_validation=v, custom_error='MyErr', aux=[n4, 'MyErr'], derives=['Debug', 'FromStr']))
+    p, pn = aux.custom('pred', 'point')
+    sp, sn = aux.custom('san', 'point')
+    pa = ['Point', 'MyErr', 'PointFromStr']
+    out.append(mk('fs_point_nov', 'any', 'Point', aux=pa, derives=['Debug', 'FromStr']))
+    out.append(mk('fs_point_san_pred', 'any', 'Point', sanitizers=[Sanitizer('with', sp)], validators=[Validator('predicate', fn=p)],
+                  aux=pa + [pn, sn], derives=['Debug', 'FromStr']))
+    out.append(mk('fs_point_san_nov', 'any', 'Point', sanitizers=[Sanitizer('with', sp)], aux=pa + [sn], derives=['Debug', 'FromStr']))
+    for d in out:
+        d.verus = False
+        d.kani = True
+    return out
+
+
+def h_deserialize(d: Decl, props, bounded=None, concrete=None):
+    """C04: protocol-following document => Ok(v) iff inner ok and constructor accepts, v == constructor's
+    value; inner failure passed through; validation failure => an error; protocol violation => error."""
+    S = concrete_self(d)
+    R = 'ref_' + d.id
+    I = concrete_inner(d)
+    if concrete is None:
+        val = anyval(d, 'raw')
+        mode = '        let mode: u8 = kani::any();\n        let ok: bool = kani::any();\n'
+    else:
+        val = '        let raw: String = String::from(%s);\n' % concrete[0]
+        mode = '        let mode: u8 = %d;\n        let ok: bool = %s;\n' % (concrete[1], concrete[2])
+    body = (sym_setup(d) + val + mode +
+            '        unsafe { sfmt::EXPECT_NAME = "%s"; sfmt::NEWTYPE_CALLS = 0; sfmt::SEEN_NAME_OK = false; }\n' % d.name +
+            '        let r = <%s as serde::Deserialize>::deserialize(sfmt::Fmt { v: raw%s, ok, mode });\n' % (S, '.clone()' if d.family == 'string' else '') +
+            '        unsafe { assert!(sfmt::NEWTYPE_CALLS == 1 && sfmt::SEEN_NAME_OK, "deserialize_newtype_struct is requested once, with the type\'s name"); }\n'
+            '        if mode == 0 {\n'
+            '            if !ok { assert!(matches!(r, Err(sfmt::DErr::Inner)), "a failing inner value fails deserialization with the inner error"); }\n'
+            '            else {\n')
+    if d.has_validation:
+        body += ('                match (r, %s::try_new(raw)) {\n' % R +
+                 '                    (Ok(v), Ok(e)) => assert!(%s == %s, "deserialized value == constructor\'s value (sanitized)"),\n' % (bits(d, 'v.into_inner()'), bits(d, 'e')) +
+                 '                    (Err(sfmt::DErr::Custom), Err(_)) => {},\n'
+                 '                    _ => assert!(false, "deserialization succeeds exactly when the constructor accepts the carried value"),\n'
+                 '                }\n')
+    else:
+        body += ('                match r { Ok(v) => assert!(%s == %s, "deserialized value == new(carried value)"), Err(_) => assert!(false, "a valid document must deserialize") }\n'
+                 % (bits(d, 'v.into_inner()'), bits(d, '%s::sanitize(raw)' % R)))
+    body += ('            }\n'
+             '        } else {\n'
+             '            assert!(r.is_err(), "a document that is not a newtype struct around the inner value is rejected");\n'
+             '        }\n')
+    what = 'Deserialize::deserialize' + ('' if concrete is None else '(%s)' % concrete[3])
+    return Harness(d, what, props, body, bounded=bounded,
+                   clause='deserialize(doc) is Ok(v) <=> the carried inner value deserializes and try_new(it) == Ok(v); otherwise Err')
+
+
+def h_serialize(d: Decl, props, concrete=None, bounded=None):
+    S = concrete_self(d)
+    I = concrete_inner(d)
+    from .kani_serde import PRIM_KIND
+    if concrete is None:
+        pre = sym_setup(d) + anyval(d) + obtain(d, 'v', 'raw')
+        kind = PRIM_KIND[I]
+        if d.family == 'float':
+            bits_e = 'ref_%s::sanitize(raw).to_bits() as u128' % d.id
+        else:
+            ub = {'i8': 'u8', 'i16': 'u16', 'i32': 'u32', 'i64': 'u64', 'i128': 'u128'}.get(I)
+            bits_e = ('ref_%s::sanitize(raw) as %s as u128' % (d.id, ub)) if ub else 'ref_%s::sanitize(raw) as u128' % d.id
+        what = 'Serialize::serialize'
+    else:
+        pre = '        let raw = String::from(%s);\n' % concrete[0] + obtain(d, 'v', 'raw.clone()')
+        kind = 15
+        bits_e = ('{ let s = ref_%s::sanitize(raw.clone()); let b = s.as_bytes(); let mut acc: u128 = b.len() as u128; let mut i = 0; '
+                  'while i < b.len() && i < 8 { acc = acc * 257 + b[i] as u128; i += 1; } acc }' % d.id)
+        what = 'Serialize::serialize(%s)' % concrete[1]
+    body = (pre +
+            '        unsafe { sfmt::EXPECT_NAME = "%s"; sfmt::SER_FAIL = kani::any(); }\n' % d.name +
+            '        let r = serde::Serialize::serialize(&v, sfmt::RecSer { depth: 0 });\n'
+            '        if unsafe { sfmt::SER_FAIL } { assert!(matches!(r, Err(sfmt::DErr::Inner)), "the serializer\'s error is passed through"); }\n'
+            '        else {\n'
+            '            let expect = sfmt::Rec { newtype_calls: 1, name_ok: true, prim_kind: %d, bits: %s, other_calls: 0 };\n' % (kind, bits_e) +
+            '            assert!(r == Ok(expect), "exactly serialize_newtype_struct(type name, &stored inner value)");\n'
+            '        }\n')
+    return Harness(d, what, props, body, bounded=bounded,
+                   clause='serialize(v) == serializer.serialize_newtype_struct("X", &v.inner) — one call, stored value bit-exact, result passed through')
+
+
+def h_roundtrip(d: Decl, props):
+    """C10: serialize, hand the recorded inner value back through the protocol-following format, deserialize."""
+    S = concrete_self(d)
+    I = concrete_inner(d)
+    if d.family == 'float':
+        back = '%s::from_bits(rec.bits as %s)' % (I, 'u32' if I == 'f32' else 'u64')
+    else:
+        back = 'rec.bits as %s' % I
+    body = (sym_setup(d) + anyval(d) + obtain(d, 'v', 'raw') +
+            '        unsafe { sfmt::EXPECT_NAME = "%s"; sfmt::SER_FAIL = false; sfmt::NEWTYPE_CALLS = 0; }\n' % d.name +
+            '        let rec = serde::Serialize::serialize(&v, sfmt::RecSer { depth: 0 }).unwrap();\n'
+            '        let inner_back: %s = %s;\n' % (I, back) +
+            '        let r = <%s as serde::Deserialize>::deserialize(sfmt::Fmt { v: inner_back, ok: true, mode: 0 });\n' % S +
+            '        match r { Ok(w) => assert!(%s == %s, "deserialize(serialize(v)) == v"), Err(_) => assert!(false, "a serialized valid value must deserialize") }\n'
+            % (bits(d, 'w.into_inner()'), bits(d, 'v.into_inner()')))
+    return Harness(d, 'serde round trip', props, body, clause='forall obtainable v: deserialize(serialize(v)) == Ok(v) through a format that round-trips the inner value')
+
+
+def serde_decls(tier='quick'):
+    out = []
+    types = (INT_TYPES + FLOAT_TYPES) if tier == 'thorough' else ['i32', 'u8', 'i64', 'u16', 'f32', 'f64']
+    types = [t for t in types if t not in ('usize', 'isize', 'i128', 'u128')]
+    sd = ['Debug', 'Serialize', 'Deserialize']
+    for t in types:
+        fl = t in FLOAT_TYPES
+        fam = 'float' if fl else 'int'
+        bl, n1 = aux.sym_bound('lo', t)
+        bu, n2 = aux.sym_bound('hi', t)
+        s, n5 = aux.custom('san', t)
+        vals = [Validator('greater_or_equal', bl), Validator('less', bu)]
+        if fl:
+            vals = [Validator('finite')] + vals
+        out.append(mk('sd_%s_nov' % t, fam, t, derives=sd))
+        out.append(mk('sd_%s_val' % t, fam, t, validators=vals, aux=[n1, n2], derives=sd))
+        out.append(mk('sd_%s_san_val' % t, fam, t, sanitizers=[Sanitizer('with', s)], validators=[vals[-1]], aux=[n2, n5], derives=sd))
+        out.append(mk('sd_%s_san_nov' % t, fam, t, sanitizers=[Sanitizer('with', s)], aux=[n5], derives=sd))
+        v, n4 = aux.custom('vfn', t)
+        out.append(mk('sd_%s_custom' % t, fam, t, custom_validation=v, custom_error='MyErr', aux=[n4, 'MyErr'], derives=sd))
+        if fl:
+            out.append(mk('sd_%s_bounds_nofinite' % t, fam, t, validators=[Validator('greater_or_equal', bl)], aux=[n1], derives=sd))
+    for d in out:
+        d.verus = False
+        d.kani = True
+    return out
+
+
+def serde_string_decls():
+    out = [mk('sd_str_tr_max', 'string', 'String', sanitizers=[Sanitizer('trim')], validators=[Validator('len_char_max', aux.lit_bound(2))],
+              derives=['Debug', 'Serialize', 'Deserialize']),
+           mk('sd_str_tr_nov', 'string', 'String', sanitizers=[Sanitizer('trim')], derives=['Debug', 'Serialize', 'Deserialize'])]
+    for d in out:
+        d.verus = False
+        d.kani = True
+    return out
+
+
 # ------------------------------------------------------------------------------ crate + run
 def crate_text(decls, harnesses, extra_items='', features=()):
     names = []
@@ -390,6 +610,16 @@ def kani_run_harnesses(out, prop, tag, decls, harnesses, extra_items='', feature
                 out.samples.append({'obligation': h.key, 'clause': h.clause, 'declaration': h.decl.source().strip(), 'backend': 'kani'})
         else:
             fc = '; '.join(r['failed'])
+            if 'CBMC timed out' in r['text'] or 'CBMC failed' in fc or 'out of memory' in r['text'].lower():
+                out.undecided.append('kani harness %s: solver timeout / tool failure (undecided, not a violation)' % h.name)
+                if not h.bounded:
+                    out.obligations -= 1
+                continue
+            if r['failed'] and all(('kani_lib.c' in x or 'rust_dealloc' in x or 'free argument' in x or 'double free' in x) for x in r['failed']):
+                out.undecided.append('kani harness %s: failure inside Kani\'s own allocator model (tool limit, undecided)' % h.name)
+                if not h.bounded:
+                    out.obligations -= 1
+                continue
             unwind = 'unwinding assertion' in fc
             if unwind and not [x for x in r['failed'] if 'unwinding' not in x]:
                 out.undecided.append('kani harness %s: unwinding assertion failed (bound too small)' % h.name)
@@ -522,6 +752,31 @@ def harnesses_for(prop, tier, seed):
         for d in decls:
             if 'Default' in d.derives:
                 hs.append(h_default(d, [prop], valid=not d.note.startswith('invalid-default')))
+    elif prop == 'C06':
+        decls = fromstr_decls(tier)
+        extra = parse_stub_items(sorted({d.inner for d in decls if d.family in ('int', 'float')}))
+        for d in decls:
+            hs.append(h_from_str(d, [prop]))
+    elif prop in ('C04', 'C10'):
+        from .kani_serde import serde_items_expanded
+        decls = serde_decls(tier)
+        extra = serde_items_expanded()
+        sdecls = serde_string_decls()
+        for d in decls:
+            if prop == 'C04':
+                hs.append(h_deserialize(d, [prop]))
+            else:
+                hs.append(h_serialize(d, [prop]))
+                if not d.sanitizers:
+                    hs.append(h_roundtrip(d, [prop]))
+        B = 'bounded: concrete string documents only (symbolic strings do not finish in CBMC)'
+        for d in sdecls:
+            if prop == 'C04':
+                for lit, mode, ok, tag in [('" a "', 0, 'true', 'valid, needs trim'), ('"abc"', 0, 'true', 'too long'), ('"x"', 0, 'false', 'inner fails'), ('"x"', 1, 'true', 'protocol violation')]:
+                    hs.append(h_deserialize(d, [prop], bounded=B, concrete=(lit, mode, ok, tag)))
+            else:
+                hs.append(h_serialize(d, [prop], concrete=('" ab "', 'ab'), bounded=B))
+        decls = decls + sdecls
     elif prop == 'C11':
         decls = float_decls(tier)
         for d in decls:
@@ -592,7 +847,7 @@ def prefilter(out, prop, decls, hs):
     set aside (C02: they hold vacuously; elsewhere: undecided), and the shape of every generated
     error enum is compared with the declared validators (C02/C07 obligation `error_enum_shape`)."""
     from .refgen import error_enum_shape_problem
-    dr = pipeline.build_dumps(decls, prop + 'k')
+    dr = pipeline.build_dumps(decls, prop + 'k', features=('serde', 'arbitrary'))
     rejected = {}
     shape = {}
     for d in decls:
